@@ -586,6 +586,17 @@ pub fn run(st: &State, t: &mut Toks) -> PResult<String> {
                         "eof" => conns[sel].0.end(false),
                         "reset" => conns[sel].0.end(true),
                         "garbage" => conns[sel].0.push(&[1, 0, 0, 0, 9, 9, 9, 9]),
+                        // a well-formed REQUEST from the peer (Disconnect-Peer, Device-Watchdog): nobody waits for it - to the reader it is an
+                        // unmatched message like any other
+                        "dpr" | "dwr" => {
+                            let (cmd, app) = if kind == "dpr" { (CommandCode::DisconnectPeer, ApplicationId::Common) } else { (CommandCode::DeviceWatchdog, ApplicationId::Common) };
+                            let mut m = DiameterMessage::new(cmd, app, 0x80, 0x00fe_dcba, 0x77, Arc::clone(&dict));
+                            m.add_avp(264, None, M, Identity::new("peer.example.com").into());
+                            m.add_avp(296, None, M, Identity::new("example.com").into());
+                            let mut b = Vec::new();
+                            m.encode_to(&mut b).expect("encode peer request");
+                            conns[sel].0.push(&b);
+                        }
                         // a frame announcing more than the reader accepts (16 MiB - 1), followed by what could pass for frames
                         "oversized" => {
                             let mut f = vec![1u8, 0xff, 0xff, 0xff];
